@@ -235,7 +235,7 @@ func parseDirective(vars []RvInstruction, device bool) *RvDirective { //nolint:g
 
 func parseURLs(vars []RvInstruction, device bool) (urls []*url.URL) { //nolint:gocyclo
 	// Collect URL info
-	scheme, port := "tls", ""
+	scheme, port, defaultPort := "tls", "", ""
 	var dnsAddr string
 	var ipAddr net.IP
 	for _, v := range vars {
@@ -247,29 +247,17 @@ func parseURLs(vars []RvInstruction, device bool) (urls []*url.URL) { //nolint:g
 				case RVProtRest:
 					// Unsupported, use default
 				case RVProtHTTP:
-					scheme = "http"
-					if port == "" {
-						port = "80"
-					}
+					scheme, defaultPort = "http", "80"
 				case RVProtHTTPS:
-					scheme = "https"
-					if port == "" {
-						port = "443"
-					}
+					scheme, defaultPort = "https", "443"
 				case RVProtTCP:
-					scheme = "tcp"
+					scheme, defaultPort = "tcp", ""
 				case RVProtTLS:
-					scheme = "tls"
+					scheme, defaultPort = "tls", ""
 				case RVProtCoapTCP:
-					scheme = "coap+tcp"
-					if port == "" {
-						port = "5683"
-					}
+					scheme, defaultPort = "coap+tcp", "5683"
 				case RVProtCoapUDP:
-					scheme = "coap"
-					if port == "" {
-						port = "5683"
-					}
+					scheme, defaultPort = "coap", "5683"
 				}
 			}
 
@@ -295,6 +283,11 @@ func parseURLs(vars []RvInstruction, device bool) (urls []*url.URL) { //nolint:g
 				ipAddr = ip
 			}
 		}
+	}
+
+	// Without a port instruction for this role, use the default of the scheme
+	if port == "" {
+		port = defaultPort
 	}
 
 	// Assemble URLs
